@@ -335,9 +335,38 @@ def run_unit(unit_name, repo, outdir, extra=()):
                 break
     path = os.path.join(outdir, unit_name + '.rs')
     dropped_hints = []
+    auto_consts = []
     for attempt in range(4):
         text = '\n'.join(lines)
         rc, diags, summary, wall, raw, cached = cached_verus(path, text, extra)
+        # Wautoconst: an extracted body that names a module-level `const` of its own source file which the template
+        # does not list (a change introduced it) is not a reason to give up: the constant IS its value.  Its item is
+        # copied verbatim from the source file (visibility made `pub`) onto the `verus! {` line and the unit is verified again.
+        missing = set()
+        for d in diags:
+            m = re.match(r"cannot find value `([A-Z][A-Z0-9_]*)` in this scope", d.get('message', '')) if d['level'] == 'error' else None
+            if m and m.group(1) not in [c[0] for c in auto_consts]:
+                missing.add(m.group(1))
+        if missing and attempt < 3:
+            srcfiles = sorted(set(o[1] for o in u.origin if o[0] == 'src'))
+            found = False
+            for name in sorted(missing):
+                for rel in srcfiles:
+                    try:
+                        src = open(os.path.join(repo, rel)).read()
+                    except OSError:
+                        continue
+                    m = re.search(r'^(?:pub(?:\([a-z]+\))? )?const %s\s*:\s*([A-Za-z0-9_:<>]+)\s*=\s*([^;{}]+);' % re.escape(name), src, re.M)
+                    if m:
+                        for k, l in enumerate(lines):
+                            if l.startswith('verus! {'):
+                                lines[k] = l + ' pub const %s: %s = %s;' % (name, m.group(1), ' '.join(m.group(2).split()))
+                                break
+                        auto_consts.append((name, rel))
+                        found = True
+                        break
+            if found:
+                continue
         # A failing untagged proof-hint assertion of a template is not an obligation of any property: hints only
         # help the solver.  It is dropped and the unit verified again, so that what fails in the end is a tagged
         # clause (the property that is really broken) or nothing (the hint was not needed).
@@ -355,6 +384,9 @@ def run_unit(unit_name, repo, outdir, extra=()):
             dropped_hints.append('%s:%d: %s' % (u.origin[ln - 1][1], u.origin[ln - 1][2], lines[ln - 1].strip()))
             lines[ln - 1] = HINT_STMT.sub(lambda m: m.group(1) + '/* failing proof hint dropped */', lines[ln - 1])
     u.dropped_hints = dropped_hints
+    u.auto_consts = ['%s (%s)' % c for c in auto_consts]
+    if auto_consts:
+        u.rw.counts['Wautoconst'] = u.rw.counts.get('Wautoconst', 0) + len(auto_consts)
     return u, rc, diags, summary, wall, raw, path, names, cached
 
 
